@@ -10,9 +10,12 @@
 #include <AIToolbox/MDP/SparseExperience.hpp>
 #include <AIToolbox/MDP/MaximumLikelihoodModel.hpp>
 #include <AIToolbox/MDP/SparseMaximumLikelihoodModel.hpp>
+#include <AIToolbox/MDP/ThompsonModel.hpp>
 #include <AIToolbox/Bandit/Experience.hpp>
+#include <AIToolbox/Factored/Bandit/Experience.hpp>
 #include <AIToolbox/Factored/MDP/CooperativeExperience.hpp>
 #include <AIToolbox/Factored/MDP/CooperativeMaximumLikelihoodModel.hpp>
+#include <AIToolbox/Factored/MDP/CooperativeThompsonModel.hpp>
 #include "vio.hpp"
 
 using namespace AIToolbox;
@@ -48,8 +51,30 @@ static void dumpRow(const M & m, size_t S, size_t s, size_t a, vio::Out & o) {
     o << m.getExpectedReward(s, a, 0);
 }
 
+// Posterior-sampling models draw from their private engine.  The harness fixes the seed the model's
+// engine receives (Seeder root seed) and keeps a twin engine in step with it: before each row is
+// synced the twin produces the gamma draws Gamma(visits(s,a,s1) + 1/2, 1), s1 = 0..S-1, and (when
+// visitSum >= 2) the Student-t draw that the documented sampling scheme consumes.  The draws are
+// printed with the resulting row, so the judge can apply the Coq model (thompson_row) to them.
+static unsigned pinnedSeed(unsigned root) {
+    Seeder::setRootSeed(root); const unsigned sd = Seeder::getSeed(); Seeder::setRootSeed(root);
+    return sd;        // the next Seeder::getSeed() returns sd again
+}
+template <typename VisitsOf>
+static void replayRowDraws(RandomEngine & twin, size_t n, unsigned long total, VisitsOf && visits, vio::Out & o) {
+    for (size_t k = 0; k < n; ++k) {
+        std::gamma_distribution<double> dist(visits(k) + 0.5, 1.0);
+        o << dist(twin);
+    }
+    if (total < 2) o << 0.0;
+    else { std::student_t_distribution<double> dist(total - 1); o << dist(twin); }
+}
+
 template <typename E>
 static void runMdp(vio::Cursor & c, vio::Out & o) {
+    using TM = MDP::ThompsonModel<E>;
+    struct TEntry { std::unique_ptr<TM> m; RandomEngine twin; };
+    std::vector<TEntry> tmodels;
     using DM = MDP::MaximumLikelihoodModel<E>;
     // SparseMaximumLikelihoodModel<MDP::Experience> does not instantiate (sparse row = dense expression);
     // for the dense Experience the "s" model kind is rejected by the generator.
@@ -95,6 +120,33 @@ static void runMdp(vio::Cursor & c, vio::Out & o) {
             }
             for (size_t k = 0; k < models.size(); ++k)
                 withModel(k, [&](auto & m) { dumpModel(m, S, A, o); });
+            for (auto & t : tmodels) dumpModel(*t.m, S, A, o);
+        } else if (op == "tm" || op == "ty" || op == "tp") {
+            // Thompson model: construct (syncs every row) / sync() / sync(s,a); per synced row:
+            // S gamma draws, t draw, then the S probabilities and the reward the model exposes
+            auto row = [&](TEntry & t, size_t s, size_t a) {
+                replayRowDraws(t.twin, S, exp.getVisitsSum(s, a), [&](size_t s1) { return exp.getVisits(s, a, s1); }, o);
+            };
+            if (op == "tp") {
+                size_t k = c.nextSize(), s = c.nextSize(), a = c.nextSize();
+                auto & t = tmodels.at(k);
+                row(t, s, a); t.m->sync(s, a); dumpRow(*t.m, S, s, a, o);
+            } else {
+                size_t k;
+                if (op == "tm") {
+                    const unsigned sd = pinnedSeed(7919u * (unsigned) (tmodels.size() + 1) + (unsigned) n);
+                    tmodels.push_back(TEntry{nullptr, RandomEngine(sd)});
+                    k = tmodels.size() - 1;
+                } else k = c.nextSize();
+                auto & t = tmodels.at(k);
+                // draws first (same order as sync(): for a, for s), then the rows
+                vio::Out draws;
+                for (size_t a = 0; a < A; ++a) for (size_t s = 0; s < S; ++s)
+                    replayRowDraws(t.twin, S, exp.getVisitsSum(s, a), [&](size_t s1) { return exp.getVisits(s, a, s1); }, draws);
+                if (op == "tm") t.m = std::make_unique<TM>(exp, 0.9); else t.m->sync();
+                o.os << draws.os.str();
+                for (size_t a = 0; a < A; ++a) for (size_t s = 0; s < S; ++s) dumpRow(*t.m, S, s, a, o);
+            }
         } else throw std::logic_error("unknown op " + op);
     }
 }
@@ -114,7 +166,8 @@ static void dumpCoopExp(const fm::CooperativeExperience & exp, vio::Out & o) {
         }
     }
 }
-static void dumpCoopModel(const fm::CooperativeMaximumLikelihoodModel & m, vio::Out & o) {
+template <typename M>
+static void dumpCoopModel(const M & m, vio::Out & o) {
     const auto & S = m.getS();
     const auto & T = m.getTransitionFunction().transitions;
     for (size_t i = 0; i < S.size(); ++i)
@@ -139,6 +192,17 @@ static void runCoop(vio::Cursor & c, vio::Out & o) {
     fm::CooperativeExperience exp(graph);
     std::vector<std::unique_ptr<fm::CooperativeMaximumLikelihoodModel>> models;
     fm::CooperativeExperience::Indeces last(S.size(), 0);
+    struct CT { std::unique_ptr<fm::CooperativeThompsonModel> m; RandomEngine twin; };
+    std::vector<CT> tmodels;
+    auto ctDraws = [&](CT & t, size_t i, size_t j, vio::Out & out) {
+        const auto & v = exp.getVisitsTable()[i];
+        replayRowDraws(t.twin, S[i], v(j, S[i]), [&](size_t c) { return v(j, c); }, out);
+    };
+    auto ctRow = [&](CT & t, size_t i, size_t j, vio::Out & out) {
+        const auto & T = t.m->getTransitionFunction().transitions;
+        for (size_t c = 0; c < S[i]; ++c) out << T[i](j, c);
+        out << t.m->getRewardFunction()[i][j];
+    };
     const size_t nops = c.nextSize();
     for (size_t n = 0; n < nops; ++n) {
         const std::string op = c.next();
@@ -155,12 +219,64 @@ static void runCoop(vio::Cursor & c, vio::Out & o) {
             }
             o << (size_t) exp.getTimesteps();
         } else if (op == "z") { exp.reset(); dumpCoopExp(exp, o); }
-        else if (op == "d") { dumpCoopExp(exp, o); for (auto & m : models) dumpCoopModel(*m, o); }
+        else if (op == "d") { dumpCoopExp(exp, o); for (auto & m : models) dumpCoopModel(*m, o); for (auto & t : tmodels) dumpCoopModel(*t.m, o); }
+        else if (op == "ctm" || op == "cty") {      // CooperativeThompsonModel: construct / sync(): draws of all rows, then all rows
+            size_t k;
+            // CooperativeThompsonModel never seeds rand_ (default-constructed mt19937): the twin is too.
+            if (op == "ctm") { tmodels.push_back(CT{nullptr, RandomEngine()}); k = tmodels.size() - 1; }
+            else k = c.nextSize();
+            auto & t = tmodels.at(k);
+            for (size_t i = 0; i < S.size(); ++i) for (size_t j = 0; j < graph.getSize(i); ++j) ctDraws(t, i, j, o);
+            if (op == "ctm") t.m = std::make_unique<fm::CooperativeThompsonModel>(exp, 0.9); else t.m->sync();
+            for (size_t i = 0; i < S.size(); ++i) for (size_t j = 0; j < graph.getSize(i); ++j) ctRow(t, i, j, o);
+        } else if (op == "ctp" || op == "cti") {    // sync(s,a) / sync(indeces): one row per node
+            size_t k = c.nextSize(); auto & t = tmodels.at(k);
+            fm::CooperativeExperience::Indeces ids = last;
+            if (op == "ctp") {
+                auto s = readVec<af::State>(c, S.size()); auto a = readVec<af::Action>(c, A.size());
+                for (size_t i = 0; i < S.size(); ++i) ids[i] = graph.getId(i, s, a);
+                for (size_t i = 0; i < S.size(); ++i) ctDraws(t, i, ids[i], o);
+                t.m->sync(s, a);
+            } else {
+                for (size_t i = 0; i < S.size(); ++i) ctDraws(t, i, ids[i], o);
+                t.m->sync(last);
+            }
+            for (size_t i = 0; i < S.size(); ++i) ctRow(t, i, ids[i], o);
+        }
         else if (op == "cm") { bool flag = c.nextSize() != 0; models.emplace_back(std::make_unique<fm::CooperativeMaximumLikelihoodModel>(exp, 0.9, flag)); dumpCoopModel(*models.back(), o); }
         else if (op == "cy") { size_t k = c.nextSize(); models.at(k)->sync(); dumpCoopModel(*models[k], o); }
         else if (op == "cp") { size_t k = c.nextSize(); auto s = readVec<af::State>(c, S.size()); auto a = readVec<af::Action>(c, A.size());
                                models.at(k)->sync(s, a); dumpCoopModel(*models[k], o); }
         else if (op == "ci") { size_t k = c.nextSize(); models.at(k)->sync(last); dumpCoopModel(*models[k], o); }
+        else throw std::logic_error("unknown op " + op);
+    }
+}
+
+// ---- Factored::Bandit::Experience: A, dependency groups, ops (r a.. rews.. | z | d)
+static void runFBandit(vio::Cursor & c, vio::Out & o) {
+    auto Av = c.nextSizes(); af::Action A(Av.begin(), Av.end());
+    const size_t ng = c.nextSize();
+    std::vector<af::PartialKeys> deps;            // must outlive the experience (it keeps a reference)
+    for (size_t k = 0; k < ng; ++k) { auto d = c.nextSizes(); deps.emplace_back(d.begin(), d.end()); }
+    af::Bandit::Experience exp(A, deps);
+    auto dump = [&]() {
+        o << (size_t) exp.getTimesteps();
+        for (size_t i = 0; i < ng; ++i)
+            for (size_t arm = 0; arm < exp.getVisitsTable()[i].size(); ++arm)
+                o << (size_t) exp.getVisitsTable()[i][arm] << exp.getRewardMatrix().bases[i].values[arm] << exp.getM2Matrix()[i][arm];
+    };
+    const size_t nops = c.nextSize();
+    for (size_t n = 0; n < nops; ++n) {
+        const std::string op = c.next();
+        if (op == "r") {
+            auto a = readVec<af::Action>(c, A.size());
+            af::Rewards rw(ng); for (size_t k = 0; k < ng; ++k) rw[k] = c.nextDouble();
+            const auto & ids = exp.record(a, rw);
+            for (size_t i = 0; i < ng; ++i)
+                o << ids[i] << (size_t) exp.getVisitsTable()[i][ids[i]] << exp.getRewardMatrix().bases[i].values[ids[i]] << exp.getM2Matrix()[i][ids[i]];
+            o << (size_t) exp.getTimesteps();
+        } else if (op == "z") { exp.reset(); dump(); }
+        else if (op == "d") dump();
         else throw std::logic_error("unknown op " + op);
     }
 }
@@ -175,6 +291,7 @@ int main(int argc, char ** argv) {
             else if (ek == "N") runMdp<PlainExp>(c, o);
             else throw std::logic_error("unknown experience kind " + ek);
         } else if (kind == "coop") { runCoop(c, o);
+        } else if (kind == "fbandit") { runFBandit(c, o);
         } else if (kind == "svt") {     // S A table[a][s][s1] : setVisitsTable on a used experience
             const size_t S = c.nextSize(), A = c.nextSize();
             MDP::Experience exp(S, A);
